@@ -29,7 +29,11 @@ META = dict(
         "skipped (DESIGN note) and counted (selfcheck_rejected*; more than 10% -> INCONCLUSIVE); "
         "any other exception is a violation"],
     need=["trees", "points", "value_cmp", "jac_cmp", "mirror_value_cmp", "mirror_jac_cmp",
-          "structure_changed", "shared_subtree_trees", "shared_leaf_trees", "cloned_trees"],
+          "structure_changed", "shared_subtree_trees", "shared_leaf_trees", "cloned_trees",
+          "trees_with_shared_operator_objects", "same_object_above_two_keys",
+          "family:same-obj-two-keys", "family:nested-leaf-sharing", "family:leaf-chains-one-key",
+          "family:subtree-with-chains-on-top", "family:obj-on-two-subtrees",
+          "family:two-groups"],
     quick=dict(cases=240, workers=6, budget_s=75),
     thorough=dict(cases=1500, workers=16, budget_s=780),
     design_ref="DESIGN.md §5 C05",
@@ -75,7 +79,7 @@ def clone_some(rng, prog, p=0.35):
                     done[0] = True
                     return new
                 return v
-            if nd[0] in ("ptw",):
+            if nd[0] in ("ptw", "app"):
                 nd[2] = sub(nd[2])
             elif nd[0] in ("add", "sub", "mul"):
                 nd[1] = sub(nd[1])
@@ -87,6 +91,15 @@ def clone_some(rng, prog, p=0.35):
     prog = dict(prog)
     prog["nodes"] = out
     return prog, ncl
+
+
+def same_obj_on_two_keys(prog):
+    """is one operator object applied directly to the leaves of two different keys?"""
+    seen = {}
+    for nd in prog["nodes"]:
+        if nd[0] == "app" and prog["nodes"][nd[2]][0] == "var":
+            seen.setdefault(nd[1], set()).add(prog["nodes"][nd[2]][1])
+    return any(len(v) > 1 for v in seen.values())
 
 
 def sharing(prog, mr):
@@ -118,15 +131,28 @@ def case(ck, i):
     cfg = dict(md=True, nkeys=(2, 4), cplx=False, steps=(4, ck.pick(11, 14)), total=True,
                maxdepth=ck.pick(7, 9), same_dt=True, p_share=0.5, p_subst=0., jax=False,
                minbin=0 if rng.integers(0, 40) == 0 else 1, linstart=0.2)
-    g = mr.gen_program(rng, **cfg)
+    family = None
+    if rng.random() < 0.4:
+        g = mr.gen_template(rng)
+        if g is not None:
+            family = g[3]
+            g = g[:3]
+    else:
+        g = mr.gen_program(rng, **cfg)
     if g is None:
         ck.note(dict(gen="failed"), nontrivial=False, klass="gen-failed")
         ck.skip("generator produced no program")
         return
     prog, _, st = g
     ncl = 0
-    if rng.integers(0, 2):
+    if family is None and rng.integers(0, 2):
         prog, ncl = clone_some(rng, prog)
+    if family:
+        ck.hit("family:" + family)
+    if any(nd[0] == "app" for nd in prog["nodes"]):
+        ck.hit("trees_with_shared_operator_objects")
+        if same_obj_on_two_keys(prog):
+            ck.hit("same_object_above_two_keys")
     nleaf, nsub = sharing(prog, mr)
     ck.hit("trees")
     if nleaf:
@@ -138,6 +164,8 @@ def case(ck, i):
     desc = dict(prog=prog)
     klass = ("leafshare" if nleaf else "") + ("+subtree" if nsub else "") + ("+clones" if ncl
                                                                                else "") or "plain"
+    if family:
+        klass = "T:" + family
 
     ops = mr.build_nifty(I, prog)
     F = ops[-1]
@@ -153,6 +181,14 @@ def case(ck, i):
         with np.errstate(all="ignore"):
             G = I.optimise_operator(F)
     except AssertionError:
+        if family:
+            # template families optimise fine on the reference tree: a rejection is a regression
+            ck.note(desc, nontrivial=False, klass=klass)
+            ck.hit("selfcheck_rejected")
+            ck.violation(f"family-fails:{family}:AssertionError", "optimise_operator rejects "
+                         f"(self-check) a tree of the family '{family}', which it is documented "
+                         "to handle and handles on the reference tree")
+            return
         # the optimiser's own self-check refused its result (DESIGN: skipped, not judged).
         # Diagnostic only: was the refused result really wrong, or was the self-check spurious?
         ck.note(desc, nontrivial=False, klass=klass)
@@ -181,6 +217,11 @@ def case(ck, i):
             tb = tb.tb_next
         ck.note(desc, nontrivial=False, klass=klass)
         ck.hit("optimiser_raised")
+        if family:
+            ck.violation(f"family-fails:{family}:{type(e).__name__}", "optimise_operator raises "
+                         f"{type(e).__name__} on a tree of the family '{family}', which it "
+                         f"handles on the reference tree: {str(e)[:150]}")
+            return
         inner = mr.nifty_exc_key(e).split("@", 1)[1]
         ck.violation(f"raises:optimise_operator:{type(e).__name__}@{fn}:{inner}",
                      f"optimise_operator raised {type(e).__name__}: {str(e)[:200]}",
